@@ -10,6 +10,10 @@ sequence from the blank tape without any hypothesis.
 -/
 import BB.Model.Tape
 import BB.Model.PyTape
+import BB.Model.PyMachine
+import BB.Lemmas.PyMachine2
+import BB.Lemmas.PyMachine3
+import BB.Lemmas.PyMachine4
 
 namespace BB
 
@@ -303,5 +307,99 @@ example : pyStep ⟨2, [⟨1, 3⟩], [⟨3, 1⟩, ⟨2, 2⟩]⟩ true 4 false
 
 example : pyRun (Tape.init 0) [(true, 1, false), (true, 1, true), (false, 2, false), (false, 0, true)]
     = (⟨0, [], [⟨0, 2⟩, ⟨2, 1⟩]⟩, [1, 1, 1, 2]) := by decide
+
+/-! ## C17, run clause: the Python machine runner against the Rust accelerated runner
+
+`PyM.pyRun` (BB/Model/PyMachine.lean) models tm/machine.py `Machine.run` with the Python `Prover`
+and the additive fragment of tm/rules.py; `runProver` (BB/Model/Prover.lean) models
+src/machine.rs `run_prover`.  Compared (`PyM.RunAgree`): outcome kind, number of non-blank cells,
+number of rule applications, blank-tape record (same states; same recorded step wherever Python's
+step counter is still defined, it is -1 after the first rule application).
+
+The unconditional statement
+
+    theorem py_rs_run_eq (p : Prog) (lim : Nat) (r : PyM.PyResult) (r' : MachineResult)
+        (h1 : PyM.pyRun p lim = .ok r) (h2 : runProver p lim = .ok r')
+        (hl : PyM.rsLimit r' = false) : PyM.RunAgree r r'
+
+is FALSE (`py_rs_run_eq_counterexample`): the two `try_rule`s do not compute the same function.
+`py_rs_run_eq_partial` is the statement under the decidable condition `PyM.pyRunAgrees p lim`:
+at every cycle of the Python run, `try_rule`, `apply_rule` and `Tape.step` of the two runners,
+evaluated on the same prover, state and tape, give corresponding answers.  What the proof shows
+beyond that condition: the two main loops (`Machine.run` / `run_prover`) are the same function of
+those three answers -- order of the checks, spin-out test, blank-tape bookkeeping, outcome kinds
+-- although `Machine.run` drives them by exceptions and keeps `step = -1` after a rule application.
+Pieces of `try_rule` whose Python and Rust texts differ but which are proved equal or exactly
+characterised: `py_get_rule_eq`, `py_sig_compatible_eq`. -/
+
+/-- **C17 (run clause), counterexample to the unconditional statement**: the 2-state 4-colour
+    tree leaf "1RB 0LA 1LA 0RA  2LB 2RB 3RB 0LA" (`PyM.runCex`, `PyM.runCex_parses`) with cycle limit
+    821.  Python: `infrul` at cycle 820 (InfiniteRule raised by `make_rule` after skipping a count
+    with constant second difference); Rust: `xlimit`, i.e. the Rust run is still going when the
+    caller's cycle limit ends it.  Neither run ends in `cfglim` / `mulrul` / `limrul` / overflow and
+    no non-integer operation is produced, so `rsLimit` alone does not exclude the pair; the check of
+    C17 (vlib/c17.py) classifies it as `python_second_difference` (a count with constant second
+    difference is not an additive form: outside the property's "only additive rules") and the other
+    confirmed source of divergence, the Rust prover's undeclared 90 000-step delta cap, as
+    `rust_delta_cap_90000_unreported`; both are counted in the evidence, neither is compared.  The
+    no-divergence condition `pyRunAgrees` is false on this run. -/
+theorem py_rs_run_eq_counterexample :
+    ∃ (r : PyM.PyResult) (r' : MachineResult),
+      PyM.pyRun PyM.runCex 821 = .ok r ∧ runProver PyM.runCex 821 = .ok r'
+        ∧ PyM.rsLimit r' = false ∧ ¬ PyM.RunAgree r r'
+        ∧ PyM.pyRunAgrees PyM.runCex 821 = false := by
+  obtain ⟨r, h1, hk, _⟩ := PyM.runCex_py
+  obtain ⟨r', h2, hres⟩ := PyM.runCex_rs
+  refine ⟨r, r', h1, h2, ?_, ?_, PyM.runCex_flag⟩
+  · simp [PyM.rsLimit, hres]
+  · intro h
+    have := h.1
+    rw [hres, hk] at this
+    simp [PyM.rsKind] at this
+
+/-- **C17 (run clause), partial**: for every program and cycle limit, if the Python runner's model
+    ends inside the additive fragment without a Python limit (`.ok r`), the Rust runner's model
+    ends without panic, overflow or one of its limit outcomes (`cfglim`, `mulrul`), and no
+    `try_rule` / `apply_rule` / `Tape.step` call of the Python run is answered differently by the
+    Rust runner (`pyRunAgrees`), then the two report the same outcome kind, marks, rule
+    applications and blank-tape record. -/
+theorem py_rs_run_eq_partial (p : Prog) (lim : Nat) (r : PyM.PyResult) (r' : MachineResult)
+    (h1 : PyM.pyRun p lim = .ok r) (ha : PyM.pyRunAgrees p lim = true)
+    (h2 : runProver p lim = .ok r') (hl : PyM.rsLimit r' = false) : PyM.RunAgree r r' :=
+  PyM.run_agree p lim r r' h1 ha h2 hl
+
+/-- the Python `Prover.get_rule` (slice comparison) finds the same rule as the Rust one
+    (`starts_with`), for every prover, state, tape and signature -/
+theorem py_get_rule_eq (pv : Prover) (state : Nat) (tape : Tape) (sig : Option Signature) :
+    PyM.pyGetRule pv state tape sig = pv.getRule state tape sig :=
+  PyM.pyGetRule_eq pv state tape sig
+
+/-- the Python `Tape.sig_compatible` is the Rust one AND equality of both span lengths with the
+    signature's (Rust: at least as long) -/
+theorem py_sig_compatible_eq (t : Tape) (sig : Signature) :
+    PyM.pySigCompatible t sig
+      = (t.sigCompatible sig && t.lspan.length == sig.lspan.length
+          && t.rspan.length == sig.rspan.length) :=
+  PyM.pySigCompatible_eq t sig
+
+/-- non-vacuity of `py_rs_run_eq_partial`: "1RB 1LC  1RD 1RB  0RD 0RC  1LD 1LA" (`PyM.runWit`) with
+    cycle limit 300 satisfies every hypothesis, on a run with 5073 rule applications -/
+example : ∃ (r : PyM.PyResult) (r' : MachineResult),
+    PyM.pyRun PyM.runWit 300 = .ok r ∧ PyM.pyRunAgrees PyM.runWit 300 = true
+      ∧ runProver PyM.runWit 300 = .ok r' ∧ PyM.rsLimit r' = false ∧ r.rulapp = 5073 := by
+  have h := PyM.runWit_ok
+  simp only [Bool.and_eq_true] at h
+  obtain ⟨ha, h⟩ := h
+  generalize h1 : PyM.pyRun PyM.runWit 300 = o at h
+  generalize h2 : runProver PyM.runWit 300 = o' at h
+  cases o with
+  | ok r =>
+    cases o' with
+    | ok r' =>
+      simp only [Bool.and_eq_true, beq_iff_eq] at h
+      refine ⟨r, r', rfl, ha, rfl, ?_, h.1.1.1.2⟩
+      simp [PyM.rsLimit, h.1.1.2]
+    | error e => simp at h
+  | _ => simp at h
 
 end BB
